@@ -43,6 +43,22 @@ def allocate (s : Seg) (size : Int) : Option (Nat × Seg) :=
     | some (o, t) => some (o, { s with table := t })
     | none => none
 
+/-- The scan of `canFitLocked`: is there a contiguous gap of `sz` bytes? -/
+def fitScan (sz dataEnd : Nat) : Nat → Table → Bool
+  | prevEnd, [] => decide (dataEnd - prevEnd ≥ sz)
+  | prevEnd, e :: rest => if e.1 - prevEnd ≥ sz then true else fitScan sz dataEnd (e.1 + e.2) rest
+
+/-- `canFitLocked(size int)`. -/
+def canFit (s : Seg) (size : Int) : Bool :=
+  if size ≤ 0 then false
+  else if s.table.length ≥ maxAllocs then false
+  else fitScan size.toNat s.size headerSize s.table
+
+/-- `AllocateAndWrite` as far as the allocator is concerned: the capacity pre-check on the
+(environment-supplied) size estimate, then `allocateLocked` of the exact wire size. -/
+def allocateAndWrite (s : Seg) (estimate total : Int) : Option (Nat × Seg) :=
+  if canFit s estimate then allocate s total else none
+
 /-- `freeAtLocked(offset)`: remove the first entry whose offset matches. -/
 def freeScan (off : Nat) : Table → Option Table
   | [] => none
@@ -90,12 +106,13 @@ def decodeHeader (bs : Bytes) : Option Seg :=
 /-! ### Operation interpreter (shared by the theorems and the driver) -/
 
 inductive Op
-  | alloc (n : Int) | free (off : Nat) | reset
+  | alloc (n : Int) | free (off : Nat) | reset | allocw (estimate total : Int)
   deriving Repr
 
 def step (s : Seg) : Op → Seg
   | .alloc n => match allocate s n with | some (_, s') => s' | none => s
   | .free o => match free s o with | some s' => s' | none => s
   | .reset => reset s
+  | .allocw est tot => match allocateAndWrite s est tot with | some (_, s') => s' | none => s
 
 end Vgi.Shm
